@@ -16,7 +16,7 @@ import numpy
 from translate import c09_atom
 from vlib import core
 
-TARGETS = ["Props/C09.vo"]
+TARGETS = ["Props/C09.vo", "Props/C09_Bridge.vo"]
 NAMES = ["11", "22", "33", "12", "13", "23"]
 IJ = {"11": (0, 0), "22": (1, 1), "33": (2, 2), "12": (0, 1), "13": (0, 2), "23": (1, 2)}
 RTOL, ATOL = 1e-9, 1e-12
@@ -520,17 +520,21 @@ def run(ctx):
                     "harness: generators, 1e-9 relative comparison, decision-margin skip of |uequiv| < eps"]
     ctx.assumptions += ["float arithmetic is modelled by real arithmetic in the theorems (float results within tolerance: measured, not proved)",
                         "lat_ok: normbase = diag(ar,br,cr) base, metrics = base base^T with entries a_i a_j cos_ij, "
-                        "isotropicunit = recnormbase^T recnormbase, normbase recnormbase = I, _epsilon > 0 (checked on live lattices each run; "
-                        "their derivation from setLatPar is C01/C10's subject)",
+                        "isotropicunit = recnormbase^T recnormbase, normbase recnormbase = I, _epsilon > 0 - checked on live lattices each run AND "
+                        "proved (Props/C09_Bridge.v) for every lattice the generated lattice.py code builds from a valid cell + proper rotation "
+                        "or from a base with positive determinant",
                         "full-tensor arguments are symmetric 3x3 arrays; elements of Atom.U are not written in place by the caller",
                         "for a zero direction msdLat/msdCart return nan in Python; the msd theorem equates the two formulas as real expressions"]
     quick = ctx.tier == "quick"
     info = None
     with core.BuildLock():
         ok = ctx.regen("c09_atom", c09_atom.generate)
+        # the bridge theorems (Props/C09_Bridge.v) are about the lattice code regenerated from lattice.py / structure.py
+        from translate import lattice as _tl, c14_place as _tp
+        ok = ctx.regen("lattice", _tl.generate) and ctx.regen("c14_place", _tp.generate) and ok
         if ok:
             info = c09_atom.info()
-            okb, _ = ctx.coq(TARGETS, theorems_in={"Props/C09"})
+            okb, _ = ctx.coq(TARGETS, theorems_in={"Props/C09", "Props/C09_Bridge"})
             eps = info["epsilon"]
             validate_hypotheses(ctx, 60 if quick else 600, eps)
             if os.path.exists(os.path.join(core.COQ, "Model", "C09_AtomADP.vo")):
